@@ -143,14 +143,17 @@ class BufferedByteReceiveStream(ByteReceiveStream):
             if len(self._buffer) >= max_bytes:
                 raise DelimiterNotFound(max_bytes)
 
+            # Move the offset forward (before waiting: data may be fed into the buffer in
+            # the meantime)
+            offset = max(len(self._buffer) - delimiter_size + 1, 0)
+
             # Read more data into the buffer from the socket
             try:
                 data = await self.receive_stream.receive()
             except EndOfStream as exc:
                 raise IncompleteRead from exc
 
-            # Move the offset forward and add the new data to the buffer
-            offset = max(len(self._buffer) - delimiter_size + 1, 0)
+            # Add the new data to the buffer
             self._buffer.extend(data)
 
 
